@@ -8,6 +8,7 @@ import Cx.Model.Swar
 import Cx.Model.Expand
 import Cx.Model.State
 import Cx.Model.Teddy
+import Cx.Model.ClassCheck
 /-
   Cx.Driver — line protocol: one request per input line, one canonical answer per output line.
   Every model / spec function that takes part in a correspondence is reachable from here.
@@ -103,43 +104,6 @@ def showOptInts : Option (List Int) → String
   | some l => showIntList l
 
 def limitOfInt (n : Int) : Option Nat := if n ≤ 0 then none else some n.toNat
-
-def boundaryBytes : List Nat := [0x00, 0x0A, 0x41, 0x7F, 0x80, 0x8F, 0x90, 0x9F, 0xA0, 0xBF, 0xC0, 0xC1, 0xC2, 0xDF, 0xE0, 0xED, 0xEF, 0xF0, 0xF4, 0xF5, 0xFF]
-
-/-- acceptance of the whole byte string from the anchored start: cheap depth-bounded walk, exact fallback -/
-def accWhole (N : Nfa.NFA) (bs : Bytes) : Bool :=
-  match Nfa.walkSpan N bs bs.size (N.states.size + 8) 0 N.startAnchored with
-  | some b => b
-  | none => Nfa.acceptsSpan N bs 0 bs.size
-
-def classCheck (N : Nfa.NFA) (ranges : List (Nat × Nat)) (lo hi : Nat) : String := Id.run do
-  -- every scalar value in [lo, hi]
-  let mut r := lo
-  while r ≤ hi do
-    if Utf8.isScalar r then
-      let bs := (Utf8.encode r).toArray
-      let acc := accWhole N bs
-      if acc != GoRef.inRanges r ranges then
-        return s!"fail:rune:{r}:{acc}"
-    r := r + 1
-  if hi < 128 then return "ok"
-  -- ill-formed and well-formed short byte strings against Go's decoding rule
-  let expect := fun (bs : Bytes) =>
-    let (rn, w) := Utf8.decodeAt bs 0
-    w == bs.size && GoRef.inRanges rn ranges
-  for a in List.range 256 do
-    let bs : Bytes := #[a]
-    if accWhole N bs != expect bs then return s!"fail:bytes:{toHex bs}"
-  for a in List.range 256 do
-    for b in List.range 256 do
-      let bs : Bytes := #[a, b]
-      if accWhole N bs != expect bs then return s!"fail:bytes:{toHex bs}"
-  for a in boundaryBytes do
-    for b in boundaryBytes do
-      for c in boundaryBytes do
-        let bs : Bytes := #[a, b, c]
-        if accWhole N bs != expect bs then return s!"fail:bytes:{toHex bs}"
-  return "ok"
 
 def doExpand (std : Bool) (runes thex shex m names : String) : String :=
   match parseNatList runes, parseHex thex, parseHex shex, parseIntList m,
@@ -273,9 +237,11 @@ def handle (line : String) : String :=
   -- C15 verified class check: for EVERY scalar value r, `Accepts N (encode r) 0 |encode r|` ⇔ r ∈ ranges; then ill-formed
   -- strings: all of length 1 and 2, length 3 over boundary bytes: accepted ⇔ Go decodes them as ONE rune of the class.
   -- `lo`/`hi` restrict the rune sweep (ASCII-only automata are only promised for runes < 128). Answers ok | fail:<kind>:<data>
+  -- The checker is the pure function `ClassCheck.classCheck` (Cx/Model/ClassCheck.lean); what `ok` means in terms of
+  -- `Nfa.Accepts` is `ClassCheck.classCheck_ok` (Cx/Proofs/ClassCheck.lean) = `C15_class_checker_sound`.
   | ["classcheck", lo, hi, rs, nfa] =>
     match parseNat lo, parseNat hi, parseRanges rs, parseNfa nfa with
-    | some lo, some hi, some ranges, some N => classCheck N ranges lo hi
+    | some lo, some hi, some ranges, some N => ClassCheck.classCheck N ranges lo hi
     | _, _, _, _ => "bad-op"
   -- classify a reported end offset `e` for a search from `at_`: end of a match from the leftmost start, from another
   -- start at or after `at_`, or of no match at all
